@@ -235,7 +235,7 @@ class Verifier:
                 prefix = ch.next_prefix()
                 if self.paths > 20000: raise Unsupported('path explosion (>20000 paths)')
         except Unsupported as e:
-            res['status'] = 'unsupported'; res['error'] = str(e)
+            res['status'] = 'unsupported'; res['error'] = '%s (near line %s)' % (e, getattr(getattr(self, 'last_ex', None), 'cur_loc', None))
         except E.StaleContract as e:
             res['status'] = 'stale'; res['error'] = str(e)
         except Exception as e:
@@ -255,7 +255,7 @@ class Verifier:
 
     def run_path(self, c, node, cls, ch):
         w = self.w
-        ex = E.Exec(w, self, ch, self.timeout_ms)
+        ex = E.Exec(w, self, ch, self.timeout_ms); self.last_ex = ex
         self.paths += 1
         frame = dict(rel=c.rel, func=node, contract=c, var_types=dict(c.hints.get('var_types', {})), ext_funcs=c.hints.get('ext_funcs'))
         ex.frames.append(frame)
